@@ -161,8 +161,10 @@ def judge_real(n, links, viol, what=""):
     _cmp(viol, net, "average_neighbors_admittive_degree", (),
          fl(C.avg_neighbours_admittive_degree(n, links)), what, RT, AT)
     lac = fl(C.local_admittive_clustering(n, links))
-    _cmp(viol, net, "local_admittive_clustering", (), lac, what, RT, AT)
-    _cmp(viol, net, "global_admittive_clustering", (), sum(lac) / n, what,
+    got = _cmp(viol, net, "local_admittive_clustering", (), lac, what, RT, AT)
+    # the global coefficient is held to the library's own local values
+    _cmp(viol, net, "global_admittive_clustering", (),
+         sum(lac) / n if got is None else float(np.sum(got)) / n, what,
          RT, AT)
     ev += 4
     Yexp = [fl(r) for r in C.admittance(n, links)]
@@ -234,7 +236,9 @@ def fam_circuit(case):
     n, mask, perm, assign = case
     links = _links_from(n, mask, assign, perm)
     viol = []
-    sig, ev, exc = judge_real(n, links, viol)
+    what = "%d nodes, resistances %s:" % (n, {
+        "%d-%d" % k: str(v) for k, v in sorted(links.items())})
+    sig, ev, exc = judge_real(n, links, viol, what)
     return {"viol": viol, "evals": ev, "sig": sig, "excluded": exc,
             "trivial": False}
 
@@ -356,8 +360,9 @@ def fam_complex(case):
     _cmp(viol, net, "admittive_degree", (),
          cx(C.admittive_degree(n, links)), what, RT, AT)
     lac = cx(C.local_admittive_clustering(n, links))
-    _cmp(viol, net, "local_admittive_clustering", (), lac, what, RT, AT)
-    _cmp(viol, net, "global_admittive_clustering", (), sum(lac) / n, what,
+    got = _cmp(viol, net, "local_admittive_clustering", (), lac, what, RT, AT)
+    _cmp(viol, net, "global_admittive_clustering", (),
+         sum(lac) / n if got is None else complex(np.sum(got)) / n, what,
          RT, AT)
     _cmp(viol, net, "get_admittance", (),
          [cx(r) for r in C.admittance(n, links)], what, RT, AT)
@@ -379,7 +384,8 @@ def fam_complex(case):
 
 BLOCKS = [(), ("A",), ("D",), ("A", "A"), ("A", "D"), ("D", "A"), ("D", "D")]
 MAXIMAL = [b for b in BLOCKS if len(b) == 2]
-HIST_ASSIGN = [lambda k: 1, lambda k: (0, 2, 1)[k % 3], lambda k: (2, 1, 0, 0)[k % 4]]
+HIST_ASSIGN = [lambda k: 1, lambda k: (0, 2, 1)[k % 3],
+               lambda k: (2, 1, 0, 0)[k % 4]]
 
 
 def _hist_assignments(nlinks, variant=0):
@@ -475,7 +481,7 @@ def fam_history(case):
                 viol.append(V("ResNetwork.__init__:raises:connected",
                               repr(ex), repr(ex), "an object"))
                 continue
-            cur, memo, last_mut = 0, None, "init"
+            cur, memo, last_mut = 0, None, "queries-only"
             traces += 1
             trace = []
             for slot in range(k + 1):
@@ -539,6 +545,7 @@ def fam_history(case):
     # prefixes of the final block
     states = len(BLOCKS) ** (k + 1)
     stats["abstract_states_(current,memo)"] = len(seen_abs)
+    stats["operations_executed_incl_replayed_prefixes"] = transitions
     return {"viol": viol, "evals": ev, "stats": stats,
             "sig": (n, mask, tuple(updates), tuple(sorted(set(obs)))),
             "trivial": False, "states": states,
@@ -577,10 +584,11 @@ def run(ctx):
         "circuit: connected isomorphism classes on 2..5 nodes x all "
         "relabellings (n<=4; n=5: identity, thorough tier + 2 more; identical "
         "labelled weighted graphs once) x all resistance assignments over "
-        "{1/2,1,2} (<=6 links; unit + one link perturbed beyond); laws: all series "
-        "chains of 1..7 resistors, parallel bundles of 1..3 two-link branches "
-        "(+/- direct link, up to 6 branches uniform), 2xk ladders k=2..4 unit "
-        "+ one perturbed link; complex: 3^5 assignments x 2 labellings; "
+        "{1/2,1,2} (<=6 links; unit + one link perturbed beyond); laws: all "
+        "series chains of 1..7 resistors (quick: 6..7 unit + one "
+        "perturbed), parallel bundles of 1..3 two-link branches (+/- direct "
+        "link, up to 6 branches uniform), 2xk ladders k=2..4 unit + one "
+        "perturbed link; complex: 3^5 assignments x 2 labellings; "
         "history: every update sequence of length <=2 over 3 assignments x "
         "every block of <=2 average/diameter queries in each gap.  A case is "
         "distinct by (weighted graph, first row of library resistances).")
@@ -609,8 +617,7 @@ def run(ctx):
     cases = []
     for L in range(1, 8):
         if L > 5 and not thorough:
-            base = [list(a) for a in itertools.product(range(3), repeat=5)]
-            cases += [("series", a + [1] * (L - 5)) for a in base[::3]]
+            cases += [("series", a) for a in _assignments(L, 5)]
             continue
         for a in itertools.product(range(3), repeat=L):
             cases.append(("series", list(a)))
